@@ -28,11 +28,13 @@ def gen_geom(rng, small=True):
         # DPFS level 3 usually is a whole number of its blocks; the format does not require it (the second copy starts at `size`)
         tail = rng.choice([1, 4, (1 << db[-1]) // 2, (1 << db[-1]) - 1]) if rng.random() < 0.3 else 0
         return dict(bl=bl, db=db, size=size, ext=rng.random() < 0.35, rb=rng.random() < 0.8, lv3_tail=tail)
-    return dict(kind=kind, parts=[one() for _ in range(nparts)], active=rng.randrange(2), slack=rng.random() < 0.7, seed=rng.randrange(1 << 30))
+    return dict(kind=kind, parts=[one() for _ in range(nparts)], active=rng.randrange(2), slack=rng.random() < 0.7, seed=rng.randrange(1 << 30),
+                desc_gaps=rng.choice([[0, 0, 0], [0, 0, 0], [0, 0, 4], [4, 0, 4], [0, 8, 0], [4, 4, 4], [12, 0, 0]]))
 
 
 def build(geom):
     rng = random.Random(geom['seed'])
+    SV.DESC_LAYOUT['gaps'] = tuple(geom.get('desc_gaps', (0, 0, 0)))
     payloads = [pyenv.rbytes(rng, p['size']) for p in geom['parts']]
     kw = dict(rng=rng, active_table=geom['active'], slack=geom['slack'])
     if geom['kind'] == 'diff':
